@@ -192,7 +192,21 @@ pub fn fmt_check<T: StrApi>(run: &mut Run) {
     let max = T::ti().max::<Z>();
     let mut p = Z::from_i128(1);
     let ten = Z::from_i128(10);
-    while p <= max {
+    let huge = T::N > 100;
+    if huge {
+        // the widest configurations (8192 bits): a dozen values, every eighth flag combination
+        vals.truncate(12);
+        for k in [1u32, 19, 20, 1000, 2465] {
+            let x = ten.pow(k as u64).mul(&Z::from_i128(105));
+            if x <= max {
+                vals.push(x.to_le_bytes_wrapped(nb));
+                if T::SIGNED {
+                    vals.push(x.neg().to_le_bytes_wrapped(nb));
+                }
+            }
+        }
+    }
+    while p <= max && !huge {
         for m in [1i128, 2, 7, 12, 105] {
             if bits > 256 && tier == Tier::Quick && (m == 2 || m == 12) {
                 continue;
@@ -226,11 +240,14 @@ pub fn fmt_check<T: StrApi>(run: &mut Run) {
             } else {
                 vec![0, 1, dec_len, dec_len + 1, dec_len + 2, hex_len + 1, hex_len + 3, 2 * dec_len + 4]
             };
+            if huge {
+                widths = vec![0, dec_len + 2];
+            }
             widths.push(255);
             widths.sort();
             widths.dedup();
             for tr in 0..8 {
-                for combo in 0..N_COMBOS {
+                for combo in (0..N_COMBOS).step_by(if huge { 8 } else { 1 }) {
                     for &w in &widths {
                         one::<T>(&cfg, x, &zx, wide.as_ref(), tr, combo, w, l);
                     }
